@@ -3,6 +3,8 @@ correspondence: Gen/Negate.v (regenerated) vs predicate.negate.negate, structura
                 grid; and the model's `ev` of p and of negate(p) vs the implementation's calls on a value domain.
 search:         on the implementation alone: for every p in the grid and every x on which p(x) does not raise,
                 negate(p)(x) must return `not p(x)`."""
+import itertools
+
 from common import *  # noqa: F401,F403
 from common import call, code_of_call, enc, eval_codes, gen, main, rng_of
 from optcommon import skey
@@ -110,7 +112,25 @@ def search(payload):
             c_and, c_or = c_and & _ne(i), c_or | _eq(10 * i)
         bigs += [c_and, c_or]
     ps = ps + bigs
-    values = VALUES + [v for v in gen.TWIN_VALUES if not any(type(v) is type(w) and v == w for w in VALUES)] + gen.BIG_VALUES + gen.BIG_SETS + [8, 9, 10, 80, 90, 110]
+    # COMPOSITES OF COMPOSITES: connectives over negated operands, three-operand chains of every mix, quantifiers over connectives
+    from predicate.standard_predicates import ge_p as _ge, le_p as _le, lt_p as _lt, gt_p as _gt, fn_p as _fn
+    core = [_ge(0), _le(10), _ne(5), _lt(0), _gt(10), _eq(3), _fn(lambda x: isinstance(x, int) and x % 2 == 0)]
+    N = lambda t: gen.mk("not", t)  # noqa: E731
+    deep_ps = []
+    for a, b in itertools.permutations(core[:6] + [core[6]], 2):
+        for op in ("and", "or", "xor"):
+            deep_ps += [gen.mk(op, N(a), N(b)), gen.mk(op, N(a), b), gen.mk(op, a, N(b)), N(gen.mk(op, N(a), N(b)))]
+    for a, b, c in itertools.permutations(core[:5], 3):
+        for o1, o2 in itertools.product(("and", "or", "xor"), repeat=2):
+            deep_ps += [gen.mk(o1, gen.mk(o2, a, b), c), gen.mk(o1, a, gen.mk(o2, b, c))]
+    for a, b in itertools.permutations(core[:6], 2):
+        for q_ in (all_p, any_p):
+            deep_ps += [q_(gen.mk("or", a, b)), q_(gen.mk("and", a, b)), q_(N(gen.mk("or", a, b))), q_(N(gen.mk("and", a, b))), q_(gen.mk("xor", a, b)),
+                        q_(gen.mk("or", N(a), b)), N(q_(gen.mk("and", a, N(b))))]
+    for a in core[:6]:
+        deep_ps += [all_p(all_p(a)), any_p(all_p(a)), all_p(any_p(N(a))), N(any_p(any_p(a)))]
+    ps = ps + deep_ps
+    values = VALUES + [[-1, 20], [20, -1], [5, 3], [3, 5, 11], [-1], [20, 20], [0, 10], [[-1, 20]], [[3], [11]], [[]], 11, 12, -2] + [v for v in gen.TWIN_VALUES if not any(type(v) is type(w) and v == w for w in VALUES)] + gen.BIG_VALUES + gen.BIG_SETS + [8, 9, 10, 80, 90, 110]
     fails, n = [], 0
     for p in ps:
         try:
